@@ -249,6 +249,14 @@ def run(case):
         if diff:
             out.fail("C06.readback", diff[0], diff[1])
             return out
+        try:
+            got_nc = files.read_file(kind, fs, env, name, "stream", False, w.key, decs)
+            diff = files.compare_read(kind, w, got_nc)
+        except Exception as e:
+            diff = ("raises-" + type(e).__name__, "raised %s: %s" % (type(e).__name__, e))
+        if diff:
+            out.fail("C06.readback", "mac-check-off-" + diff[0], "read with the key and MAC checking off: " + diff[1])
+            return out
         # ---- rewrite of the read-back object stores the same ciphertext ----
         bf3 = got.bf3file if kind == "bec2" else got
         bin2 = bf3.to_binary(0, w.key)
